@@ -114,8 +114,7 @@ package bondmachine
 //@   assigns bmach.Links[*]
 //@   loop 1: modifies nothing
 //@   loop 1: invariant unmatched: forall l int :: 0 <= l && l < $i ==> bondName(bmach.Internal_inputs[l]) != endpoints[0] && bondName(bmach.Internal_inputs[l]) != endpoints[1]
-//@   loop 2: modifies spare(opcodes)
-//@   loop 2: invariant own: cap(opcodes) == 0 || freshl(opcodes)
+//@   loop 2: modifies nothing
 //@   loop 3: modifies nothing
 
 //@ func (bmach *Bondmachine) Add_input() (string, error)
